@@ -38,10 +38,14 @@ func genC13(r *sim.Rand, tier string) *sim.Case {
 		// every record boundary +-8 bytes plus "samples" seeded offsets.
 		"every_byte_limit": 3072,
 		"samples":          96,
+		// Estimated enumeration cost per run is capped (see cuts): multi-segment
+		// logs get a thinned cut list, single small segments stay exhaustive.
+		"cut_work_ms": 3000,
 	}}
 	if tier == "thorough" {
 		c.Cfg["every_byte_limit"] = 8192
 		c.Cfg["samples"] = 256
+		c.Cfg["cut_work_ms"] = 40000
 	}
 	shape := r.Intn(10) // 0-5: small log, 6-8: medium, 9: several segments of big records
 	n := 1 + r.Intn(12)
@@ -424,12 +428,61 @@ func (w *c13World) cuts() {
 			return
 		}
 	}
+	cutList := sortedInts(set)
+	// Work cap. Every cut re-reads the whole log four times and allocates reader
+	// buffers per segment (VerifyDir: 256 KiB fixed), so the cost of one cut grows
+	// with the size and the segment count of the log. The estimate below (in
+	// microseconds, calibrated on this machine: 0.35 ms base, ~1 GB/s) bounds the
+	// enumeration of one run; when the cut list exceeds it, keep for every record
+	// of the newest segment its boundary, the 5 bytes after its start and the 5
+	// bytes before its end (all structurally distinct places: length header,
+	// type, checksum) and stride through the remaining offsets.
+	total := size
+	for _, id := range ids[:len(ids)-1] {
+		if st, err := os.Stat(segPath(w.dir, id)); err == nil {
+			total += st.Size()
+		}
+	}
+	res.Probes["log_segments_total"] += len(ids)
+	res.Probes["log_kib_total"] += int(total >> 10)
+	bufSize := w.c.CfgInt("buffer_size", 0)
+	if bufSize <= 0 {
+		bufSize = 256 << 10
+	}
+	perCutUs := 350 + 8*total/1000 + int64(len(ids)-1)*3*(256<<10+3*bufSize)/2000
+	if allowed := int(w.c.CfgInt("cut_work_ms", 3000) * 1000 / perCutUs); len(cutList) > allowed {
+		keep := map[int]struct{}{0: {}, int(size): {}}
+		for _, r := range last {
+			for d := int64(0); d <= 5; d++ {
+				if x := r.off + d; x <= size {
+					keep[int(x)] = struct{}{}
+				}
+				if x := r.end() - d; x >= 0 && x <= size {
+					keep[int(x)] = struct{}{}
+				}
+			}
+		}
+		var rest []int
+		for _, c := range cutList {
+			if _, ok := keep[c]; !ok {
+				rest = append(rest, c)
+			}
+		}
+		if room := allowed - len(keep); room > 0 && len(rest) > 0 {
+			stride := (len(rest) + room - 1) / room
+			for i := 0; i < len(rest); i += stride {
+				keep[rest[i]] = struct{}{}
+			}
+		}
+		cutList = sortedInts(keep)
+		res.Probes["cut_list_thinned_by_work_cap"]++
+	}
 	nPost := int(w.c.CfgInt("post_records", 2))
 	fs := vfs.OSFS{}
 	// Every recovery pass allocates 256 KiB readers; collect by hand (cost only).
 	gc, restoreGC := startGCPacer()
 	defer restoreGC()
-	for n, cut := range sortedInts(set) {
+	for n, cut := range cutList {
 		if n%64 == 0 {
 			sim.Beat()
 		}
